@@ -6,7 +6,8 @@ package main
 //	1702  (view (incl...) (excl...) reset)      same through fsutil.NewFilterFS (optionally WithHardlinkReset);
 //	                                            output also carries the filtered listing of an independent walk
 //	1703  (view)                                WriteTar -> own extractor into WorkDir -> SnapshotRaw
-//	1704  (view (mapexcl...) (incl...) (excl...)) view materialised on disk; fsutil.NewFS(dir) -> NewFilterFS with a
+//	1705  (((dirstat view)...))                 fsutil.SubDirFS over several MemFS mounts -> WriteTar
+//	1704  (view (mapexcl...) (incl...) (excl...) [((src dst)...)]) view materialised on disk (+ extra hard links); fsutil.NewFS(dir) -> NewFilterFS with a
 //	                                            Map function excluding the listed paths (+ patterns) -> WriteTar;
 //	                                            output (snapshot listed-paths archive-result pattern-table)
 //
@@ -41,6 +42,7 @@ func init() {
 	kinds[0x1702] = run1702
 	kinds[0x1703] = run1703
 	kinds[0x1704] = run1704
+	kinds[0x1705] = run1705
 	props["C17"] = genC17
 }
 
@@ -309,6 +311,13 @@ func run1704(in Sx) (out Sx) {
 	if err := Materialize(roots, root); err != nil {
 		return L(N(0xfffd), S(err.Error()))
 	}
+	if len(in.L) > 4 { // extra hard links (src dst): second names of fifos, devices, symlinks (linkat does not follow)
+		for _, e := range in.L[4].L {
+			if err := os.Link(filepath.Join(root, e.L[0].Str()), filepath.Join(root, e.L[1].Str())); err != nil {
+				return L(N(0xfffd), S(err.Error()))
+			}
+		}
+	}
 	raw, err := SnapshotRaw(root, true)
 	if err != nil {
 		return L(N(0xfffd), S(err.Error()))
@@ -441,6 +450,93 @@ func c17AddLinkGroup(r *Rng, roots []*MNode, tag string) ([]*MNode, []string) {
 		}
 	}
 	return roots, paths
+}
+
+// ---- kind 1705: composite view (SubDirFS) --------------------------------------------------
+
+// output: archive result | (#9) SubDirFS rejected the mounts
+func run1705(in Sx) (out Sx) {
+	defer func() {
+		if r := recover(); r != nil {
+			out = L(N(0xffff))
+		}
+	}()
+	var dirs []fsutil.Dir
+	for _, m := range in.L[0].L {
+		dirs = append(dirs, fsutil.Dir{Stat: SxStat(m.L[0]), FS: &MemFS{Roots: SxView(m.L[1]), ChunkLen: 4096}})
+	}
+	fs, err := fsutil.SubDirFS(dirs)
+	if err != nil {
+		return L(N(9))
+	}
+	out, _, _ = archiveResult(fs)
+	return out
+}
+
+func c17SortKids(l []*MNode) { sort.Slice(l, func(i, j int) bool { return l[i].Name < l[j].Name }) }
+
+// c17EnsureFile puts a regular file with the given bytes at path p of the view, creating the directories on
+// the way; false when a non-directory is in the way or the path is already taken.
+func c17EnsureFile(roots *[]*MNode, p string, content []byte, mode uint32) bool {
+	parts := strings.Split(p, "/")
+	kids := roots
+	for i, name := range parts {
+		var found *MNode
+		for _, k := range *kids {
+			if k.Name == name {
+				found = k
+			}
+		}
+		last := i == len(parts)-1
+		if last {
+			if found != nil {
+				return false
+			}
+			*kids = append(*kids, &MNode{Name: name, Stat: &types.Stat{Mode: mode, Size: int64(len(content)), ModTime: 1234567890_000000000}, Content: content})
+			c17SortKids(*kids)
+			return true
+		}
+		if found == nil {
+			found = &MNode{Name: name, Stat: &types.Stat{Mode: uint32(os.ModeDir | 0755), ModTime: 1234567890_000000000}}
+			*kids = append(*kids, found)
+			c17SortKids(*kids)
+		} else if !os.FileMode(found.Stat.Mode).IsDir() {
+			return false
+		}
+		kids = &found.Kids
+	}
+	return false
+}
+
+// c17AddSpecialLinkGroup adds a fifo / character / block device with two or three names (one inode) at the
+// root of a MemFS view: the later names carry Linkname = first name, as the walker's inode map reports them.
+func c17AddSpecialLinkGroup(r *Rng, roots []*MNode, tag string) []*MNode {
+	used := map[string]bool{}
+	for _, k := range roots {
+		used[k.Name] = true
+	}
+	mode := Pick(r, []os.FileMode{os.ModeNamedPipe | 0644, os.ModeDevice | os.ModeCharDevice | 0600, os.ModeDevice | 0660})
+	st := &types.Stat{Mode: uint32(mode), Uid: uint32(r.Intn(2)) * 1000, Gid: uint32(r.Intn(2)) * 5, ModTime: 1500000000_000000000 + int64(r.Intn(1000))*1000000}
+	if mode&os.ModeDevice != 0 {
+		st.Devmajor, st.Devminor = int64(1+r.Intn(250)), int64(r.Intn(250))
+	}
+	first := ""
+	for i, n := 0, 2+r.Intn(2); i < 26 && n > 0; i++ {
+		nm := fmt.Sprintf("%s%c", tag, 'a'+i)
+		if used[nm] {
+			continue
+		}
+		c := st.CloneVT()
+		if first == "" {
+			first = nm
+		} else {
+			c.Linkname = first
+		}
+		roots = append(roots, &MNode{Name: nm, Stat: c})
+		n--
+	}
+	c17SortKids(roots)
+	return roots
 }
 
 // ---- extraction ---------------------------------------------------------------------------
@@ -732,6 +828,10 @@ func genC17(g *Gen) {
 		if r.Chance(70) {
 			c17Mutate(r, roots, false)
 		}
+		speclinks := r.Chance(20)
+		if speclinks { // a fifo / device inode with several names
+			roots = c17AddSpecialLinkGroup(r, roots, "sp")
+		}
 		chunk := Pick(r, []int{0, 1, 7, 512, 4096, 32 * 1024})
 		if i%4 == 0 && chunk == 1 {
 			chunk = 1000
@@ -740,7 +840,11 @@ func genC17(g *Gen) {
 		out := run1701(in)
 		n, payload, links, special, _ := c17ViewStats(roots)
 		nt := out.L[0].U64() == 0 && n >= 3 && payload >= 1 && (links+special) >= 1
-		g.EmitWith(0x1701, in, out, nt, c17Class("plain", out))
+		cls := c17Class("plain", out)
+		if speclinks {
+			cls += "-speclinks"
+		}
+		g.EmitWith(0x1701, in, out, nt, cls)
 	}
 	// (b) views outside the well-formed domain: WriteTar must fail, never write a wrong archive
 	nBad := g.Vol(60, 1200)
@@ -803,6 +907,9 @@ func genC17(g *Gen) {
 		roots := c17GenView(r, false)
 		if r.Chance(50) {
 			c17Mutate(r, roots, false)
+		}
+		if r.Chance(15) {
+			roots = c17AddSpecialLinkGroup(r, roots, "sp")
 		}
 		var paths []string
 		walkNodes(roots, func(p string, n *MNode) { paths = append(paths, p) })
@@ -924,7 +1031,45 @@ func genC17(g *Gen) {
 				}
 			}
 		}
-		in := L(ViewSx(roots), L(mexl...), L(incl...), L(excl...))
+		// second names for fifos / devices / symlinks of the view (the materialiser links regular files only)
+		var extras []Sx
+		if r.Chance(50) {
+			var specials []string
+			walkNodes(roots, func(p string, n *MNode) {
+				if m := os.FileMode(n.Stat.Mode); m&os.ModeType != 0 && !m.IsDir() {
+					specials = append(specials, p)
+				}
+			})
+			if len(specials) == 0 {
+				roots = append(roots, &MNode{Name: "spq", Stat: &types.Stat{Mode: uint32(os.ModeNamedPipe | 0640), ModTime: 1500000000_000000000}})
+				c17SortKids(roots)
+				specials = []string{"spq"}
+			}
+			taken := map[string]bool{}
+			for _, p := range paths {
+				taken[p] = true
+			}
+			for k := 1 + r.Intn(2); k > 0; k-- {
+				src := Pick(r, specials)
+				dst := src + Pick(r, []string{"~2", ".lnk", "+"})
+				if r.Chance(30) {
+					dst = "0" + filepath.Base(src) // a name that sorts BEFORE most: the new name becomes the first one
+				}
+				if len(filepath.Base(dst)) > 200 || taken[dst] {
+					continue
+				}
+				taken[dst] = true
+				extras = append(extras, L(S(src), S(dst)))
+				if r.Chance(40) { // ... and the name the walker sees first is excluded by the Map function
+					first := src
+					if dst < src {
+						first = dst
+					}
+					mexl = append(mexl, S(first))
+				}
+			}
+		}
+		in := L(ViewSx(roots), L(mexl...), L(incl...), L(excl...), L(extras...))
 		out := run1704(in)
 		nt := firstExcluded && len(out.L) == 4 && len(out.L[2].L) > 0 && out.L[2].L[0].U64() == 0 && len(out.L[1].L) >= 3
 		cls := "diskf-?"
@@ -934,7 +1079,125 @@ func genC17(g *Gen) {
 		if firstExcluded {
 			cls += "-first-excluded"
 		}
+		if len(extras) > 0 {
+			cls += "-speclinks"
+		}
 		g.EmitWith(0x1704, in, out, nt, cls)
+	}
+	// (f) composite views: SubDirFS over several mounts whose names are related (one a proper string prefix
+	// of another, so that "short/" + rest-of-long + "/p" is a path of the short mount that looks like long/p
+	// with a separator missing), with and without a file at that shifted path, of equal or different size
+	nSub := g.Vol(40, 800)
+	alphabet := []string{"a", "b", "m", "0", "-", "+", ".", " ", "é", "A", "_"}
+	word := func(n int) string {
+		w := ""
+		for i := 0; i < n; i++ {
+			w += Pick(r, alphabet)
+		}
+		return w
+	}
+	for i := 0; i < nSub; i++ {
+		type mount struct {
+			name  string
+			roots []*MNode
+		}
+		var ms []*mount
+		names := map[string]bool{}
+		add := func(n string) *mount {
+			if n == "" || n == "." || n == ".." || names[n] {
+				return nil
+			}
+			names[n] = true
+			roots := GenView(r, TreeOpts{MaxEntries: 2 + r.Intn(7), MaxDepth: 3, Names: c17Names, Types: r.Chance(60), HardLinks: r.Chance(50),
+				Xattrs: r.Chance(30), Owners: true})
+			if r.Chance(40) {
+				c17Mutate(r, roots, false)
+			}
+			m := &mount{n, roots}
+			ms = append(ms, m)
+			return m
+		}
+		type rel struct {
+			short, long *mount
+			rest        string
+		}
+		var rels []rel
+		base := add(word(1 + r.Intn(2)))
+		if base == nil {
+			continue
+		}
+		cur := base
+		for k := 1 + r.Intn(2); k > 0; k-- {
+			t := word(1 + r.Intn(2))
+			from := cur
+			if r.Chance(30) {
+				from = base
+			}
+			if t == "." || t == ".." {
+				continue
+			}
+			if m := add(from.name + t); m != nil {
+				rels = append(rels, rel{from, m, t})
+				cur = m
+			}
+		}
+		if r.Chance(50) {
+			add(word(1 + r.Intn(3)))
+		}
+		related := false
+		for _, rl := range rels {
+			// a non-empty regular file of the longer-named mount ...
+			var files []string
+			var sizes []int
+			walkNodes(rl.long.roots, func(p string, n *MNode) {
+				if isRegularMode(n.Stat.Mode) && n.Stat.Linkname == "" && len(n.Content) > 0 {
+					files = append(files, p)
+					sizes = append(sizes, len(n.Content))
+				}
+			})
+			if len(files) == 0 {
+				c := fillContent(r, 1+r.Intn(600))
+				if !c17EnsureFile(&rl.long.roots, "f"+word(1), c, 0644) {
+					continue
+				}
+				walkNodes(rl.long.roots, func(p string, n *MNode) {
+					if isRegularMode(n.Stat.Mode) && n.Stat.Linkname == "" && len(n.Content) > 0 {
+						files = append(files, p)
+						sizes = append(sizes, len(n.Content))
+					}
+				})
+			}
+			if len(files) == 0 {
+				continue
+			}
+			related = true
+			j := r.Intn(len(files))
+			// ... and, in the shorter-named mount, the path that a missing separator would turn it into
+			switch k := r.Intn(10); {
+			case k < 4: // same size, different bytes
+				c17EnsureFile(&rl.short.roots, rl.rest+"/"+files[j], fillContent(r, sizes[j]), 0600)
+			case k < 7: // different size
+				c17EnsureFile(&rl.short.roots, rl.rest+"/"+files[j], fillContent(r, sizes[j]+1+r.Intn(5)), 0600)
+			}
+		}
+		var msx []Sx
+		for _, m := range ms {
+			st := &types.Stat{Path: m.name, Mode: uint32(os.ModeDir | Pick(r, []os.FileMode{0755, 0700, 0555 | os.ModeSticky})), Uid: uint32(r.Intn(2)) * 1000,
+				Gid: uint32(r.Intn(2)) * 5, ModTime: 1600000000_000000000 + int64(r.Intn(1000))*999999}
+			msx = append(msx, L(StatSx(st), ViewSx(m.roots)))
+		}
+		for k := len(msx) - 1; k > 0; k-- { // SubDirFS sorts the mounts itself
+			j := r.Intn(k + 1)
+			msx[k], msx[j] = msx[j], msx[k]
+		}
+		in := L(L(msx...))
+		out := run1705(in)
+		nt := related && len(out.L) > 0 && out.L[0].U64() == 0 && len(ms) >= 2
+		cls := c17Class("subdir", out)
+		if related {
+			cls += "-prefix-names"
+		}
+		g.EmitWith(0x1705, in, out, nt, cls)
 	}
 }
 
